@@ -21,6 +21,8 @@ var proseMenu = []struct{ name, text string }{
 	{"inline-code", "Use `x` and\ttabs `y z` here.\n"},
 	{"non-ascii", "Grammaire décrite ci-dessous → voilà ✓\n"},
 	{"crlf", "first line\r\nsecond line\r\n"},
+	{"unicode-spaces", "Grammaire\u00a0: voil\u00e0\u3000;\u2028x\u0085y\vz\f\u1680\u2003\u202f\u205f w\n"},
+	{"controls", "bell\a back\b esc\x1b del\x7f nul\x00 end\n"},
 	{"indented", "    indented text\n\n> quote\n"},
 	{"bom-then-fence", "\ufeff"},
 	{"bom-line", "\ufeff\n"},
@@ -256,7 +258,7 @@ func init() {
 			}
 		}
 		sw.checkCross()
-		r.Set("rule", "per seed: the grammar split into bare ``` fenced blocks at every subset of its line boundaries, surrounded by prose from a menu (none, plain, heading with grammar-like text, inline code and tabs, non-ASCII, CRLF, indented/quote, a byte order mark directly before a fence / on a line of its own / before text; with and without trailing prose lacking a final newline; closing fence as the very end of the file, followed by blank lines, CRLF or a space): gocc x.md must give the same exit status, stdout and byte-identical packages as gocc on the concatenated block contents; plus an illegal character (?) planted at token positions: the line:column of the diagnostic must be the token's position in the markdown file; plus files with CR LF line endings throughout whose tokens span lines (raw string literal terminal, multi-line action, multi-line header); distinct = (seed, split, prose) and (seed, planted position)")
+		r.Set("rule", "per seed: the grammar split into bare ``` fenced blocks at every subset of its line boundaries, surrounded by prose from a menu (none, plain, heading with grammar-like text, inline code and tabs, non-ASCII, CRLF, Unicode space characters, control characters, indented/quote, a byte order mark directly before a fence / on a line of its own / before text; with and without trailing prose lacking a final newline; closing fence as the very end of the file, followed by blank lines, CRLF or a space): gocc x.md must give the same exit status, stdout and byte-identical packages as gocc on the concatenated block contents; plus an illegal character (?) planted at token positions: the line:column of the diagnostic must be the token's position in the markdown file; plus files with CR LF line endings throughout whose tokens span lines (raw string literal terminal, multi-line action, multi-line header); distinct = (seed, split, prose) and (seed, planted position)")
 		return r.Finish(nil)
 	}
 }
